@@ -114,10 +114,25 @@ def run_case(case):
     if any(f in (0, ref.ALL) for f in ref.F1):
         res.c("nets_with_constants")
     nn = 0
-    for strat in ("bfs", "dfs"):
+    def full(sd, strat):
+        if strat == "bfs":
+            return sd.expand_bfs()
+        if strat == "dfs":
+            return sd.expand_dfs()
+        # "bfs-cached": the children's percolated nets / attractor data are cached before they are expanded
+        sd.expand_bfs(bfs_level_limit=0)
+        for i in list(sd.stub_ids()):
+            try:
+                sd.node_attractor_candidates(i, compute=True)
+            except RuntimeError:
+                pass
+            sd.node_percolated_petri_net(i, compute=True)
+        return sd.expand_bfs()
+
+    for strat in ("bfs", "dfs", "bfs-cached"):
         try:
             sd = bb.make_sd(net)
-            ok = W(lambda: sd.expand_bfs() if strat == "bfs" else sd.expand_dfs())
+            ok = W(lambda: full(sd, strat))
         except bb.Aborted as e:
             res.inconclusive = f"aborted: {e}"
             return res.out()
